@@ -231,7 +231,10 @@ func stderrs(rng *Rng) []labelled {
 	add("type:array", `[]`)
 	add("type:string", `"ERROR"`)
 	add("big-text", strings.Repeat("log line of the plugin\n", 5000))
-	add("big-json", `{"errorCode":"ERROR","errorMessage":"`+strings.Repeat("m", 40+rng.Intn(20))+`","errorMetadata":{"k":"`+strings.Repeat("v", 200000)+`"}}`)
+	// large through JSON white space, so that the decoded error (printed into the case) stays small
+	add("big-json", `{"errorCode":"ERROR","errorMessage":"`+strings.Repeat("m", 40+rng.Intn(20))+`",`+strings.Repeat(" ", 200000)+`"errorMetadata":{"k":"`+strings.Repeat("v", 200)+`"}}`)
+	add("metadata-multi", `{"errorCode":"ERROR","errorMetadata":{"b":"2","a":"1","c":"","a":"3"}}`)
+	add("metadata-and-message", `{"errorMessage":"m","errorMetadata":{"z":"1","y":"2"}}`)
 	return out
 }
 
@@ -490,6 +493,40 @@ func genProc(rng *Rng, tier string) []*procCase {
 			c.Out = validStdout(cmd, c.Name)
 			add(c)
 		}
+	}
+	// E2. the name given to NewCLIPlugin and the name of the file differ (the
+	// name check of GetMetadata is against the former), every command
+	for _, mm := range []struct{ name, base, says string }{
+		{"foo", "notation-bar", "foo"}, // refutation witness of C17_name_vs_file_refuted: accepted
+		{"foo", "notation-bar", "bar"}, // the plugin truthfully names its file: refused
+		{"foo", "notation-FOO", "foo"},
+		{"bar-1", "notation-bar-1.bin", "bar-1"},
+		{"x2", "notation-", "x2"},
+	} {
+		for _, cmd := range []int{0, 1 + rng.Intn(4)} {
+			c := base("file:name-mismatch", cmd)
+			c.Name, c.Base = mm.name, mm.base
+			c.Out = validStdout(cmd, mm.says)
+			add(c)
+		}
+	}
+	// E3. no process is started: what the plugin WOULD print plays no part
+	for cmd := 0; cmd < 5; cmd++ {
+		for k, e := range []string{`{"errorCode":"ACCESS_DENIED","errorMessage":"never printed"}`, "text never printed\n"} {
+			c := base("notstarted:noexec+stderr", cmd)
+			c.File = "FNoExec"
+			c.Out, c.Err, c.Exit = validStdout(cmd, c.Name), e, k
+			add(c)
+			// context already done, a plugin that would exit at once (with and without an error)
+			c = base("notstarted:already-done+stderr", cmd)
+			c.Out, c.Err, c.Exit = validStdout(cmd, c.Name), e, 1-k
+			c.DeadlineMs, c.Cancel = 0, (cmd+k)%2 == 0
+			add(c)
+		}
+		c := base("notstarted:already-done-quick-plugin", cmd)
+		c.Out = validStdout(cmd, c.Name)
+		c.DeadlineMs, c.Cancel = 0, cmd%2 == 1
+		add(c)
 	}
 	// G. (thorough) full product stdout class x stderr class x exit code for metadata
 	if tier == "thorough" {
